@@ -155,6 +155,12 @@ def busCmd0 (st : BusState) (toks : List String) : BusState × String :=
       match p' with
       | some p' => ({ st with bus := { st.bus with policy := p' } }, "ok")
       | none => (st, "bad-op")
+  | ["reload-begin"] =>
+    -- the rules that follow (`policy …` lines) form the new configuration; nothing happens until `reload`
+    ({ st with bus := { st.bus with policy := {} } }, "ok")
+  | ["reload"] =>
+    let t := step driverTable st.bus (.reload st.bus.policy)
+    ({ st with bus := t.bus }, showTx t)
   | ["stall", c, on] =>
     match c.toNat? with
     | some c =>
